@@ -524,9 +524,11 @@ def x15_async_mut_params(sig, body):
     if not names:
         return sig, body, hits
     for n in names:
-        sig = re.sub(r'([(,]\s*)mut (%s\s*:)' % n, r'\1\2', sig)
+        # the parameter is renamed (x -> x__0) so that contracts can still name the argument
+        # after the mutable local shadows it
+        sig = re.sub(r'([(,]\s*)mut %s(\s*:)' % n, r'\1%s__0\2' % n, sig)
         hits.append('mut ' + n)
-    lets = ' '.join('let mut %s = %s;' % (n, n) for n in names)
+    lets = ' '.join('let mut %s = %s__0;' % (n, n) for n in names)
     body = '{ ' + lets + body[1:]
     return sig, body, hits
 
@@ -589,3 +591,16 @@ def x23_match_never(s):
         hits.append(m.group(0))
         return 'vstd::pervasive::unreached()'
     return pat.sub(sub, s), hits
+
+
+# ---------------------------------------------------------------- X24 `mut self`
+def x24_mut_self(sig, body):
+    """fn f(mut self, ..) { B }  ->  fn f(self, ..) { let mut self__m = self; B[self := self__m] }"""
+    hits = []
+    if not re.search(r'\(\s*mut self\b', sig):
+        return sig, body, hits
+    sig = re.sub(r'\(\s*mut self\b', '(self', sig)
+    body = re.sub(r'\bself\b', 'self__m', body)
+    body = '{ let mut self__m = self;' + body[1:]
+    hits.append('mut self')
+    return sig, body, hits
